@@ -83,7 +83,7 @@ Expressions == {"len_cmp", "cmp_chain", "and_or", "not", "implication", "is_none
                 "const_none", "const_int", "const_str", "const_bytes", "const_ellipsis", "const_complex",
                 "name_unknown", "name_const", "enum_lit", "cmp_str_int", "len_of_int", "len_ge_0",
                 "len_contradiction", "await", "yield_expr", "walrus", "star_kwargs", "index_neg", "len_two_args",
-                "len_no_args", "len_kwarg"}
+                "len_no_args", "len_kwarg", "two_len_arity_same_line", "two_unknown_calls_same_line"}
 
 FuncSpace ==
     [k |-> {"func"},
@@ -157,8 +157,10 @@ CprimSpace ==
     [k |-> {"cprim"},
      prim |-> {"str", "int", "float", "bool", "bytearray"},
      expr |-> Expressions,
-     base |-> {"std", "bare"}]
-CprimDefault == [k |-> "cprim", prim |-> "str", expr |-> "len_cmp", base |-> "std"]
+     base |-> {"std", "bare"},
+     \* a second invariant on the same primitive / a child primitive, contradicting the first or not
+     extra |-> {"none", "second_contradicting", "second_compatible", "child_contradicting", "used_as_property"}]
+CprimDefault == [k |-> "cprim", prim |-> "str", expr |-> "len_cmp", base |-> "std", extra |-> "none"]
 
 (* a docstring with an interpreted-text role: :role:`target` at some place of the model *)
 DocRefSpace ==
